@@ -114,6 +114,16 @@ def run(cx):
                         kx = norm(t.slice)
                         seeded_only = any((c == f"{kx} not in {t.value.id}" and tv) or (c == f"{kx} in {t.value.id}" and not tv) for c, tv in cs)
                         r.check(seeded_only, f"{q}/overwrites-written-value[{t.value.id}]", (core, n), f"`{stmt_key(n)}` in {q}() can replace a value that digital_write/analog_write stored: a later read would not return the last value written", sample=f"{q}: seeds {t.value.id} only when absent")
+    for q in ("pin_mode", "digital_read", "analog_read"):
+        fn = core.func(q)
+        for n in walk_local(fn, include_self=False):
+            tbl = None
+            if isinstance(n, ast.Call) and isinstance(n.func, ast.Attribute) and isinstance(n.func.value, ast.Name) and n.func.value.id in ("_digital_values", "_analog_values") and n.func.attr in ("pop", "popitem", "clear", "update", "__setitem__", "__delitem__"):
+                tbl, what = n.func.value.id, f".{n.func.attr}()"
+            elif isinstance(n, ast.Delete) and any(isinstance(t, ast.Subscript) and isinstance(t.value, ast.Name) and t.value.id in ("_digital_values", "_analog_values") for t in n.targets):
+                tbl, what = next(t.value.id for t in n.targets if isinstance(t, ast.Subscript)), "del"
+            if tbl:
+                r.fail(f"{q}/drops-or-rewrites-written-value[{tbl}{what}]", (core, n), f"`{stmt_key(n)}` in {q}() removes or rewrites entries of {tbl}: a value stored by digital_write/analog_write would no longer be what a later read returns")
     np_ = core.func("_normalise_pin")
     ints = [0, 7, 13]
     names = ["A0", "A1", "A5", "a0", "LED_BUILTIN", "D7"]
